@@ -68,3 +68,22 @@ fn message_arriving_between_subscribe_and_suback_is_kept_for_the_stream() {
     let mut st = s.borrow_mut().take().unwrap().unwrap();
     assert_eq!(drain(&mut b, &mut st), vec![("a".to_string(), b"early".to_vec())]);
 }
+
+#[test]
+fn message_matching_two_subscriptions_reaches_both_streams() {
+    // MQTT 5.0 §3.3.2.3.8 / §3.3.4: one PUBLISH for overlapping subscriptions carries the
+    // Subscription Identifier of every matching subscription.
+    let mut b = Bench::connected(&[]);
+    let mut sa = subscribe(&mut b, "a/#", 1);
+    let mut sb = subscribe(&mut b, "a/+", 2);
+    let mut sc = subscribe(&mut b, "c", 3);
+    b.feed(&publish(0, false, None, "a/x", &[1, 2], b"both"));
+    b.feed(&publish(1, false, Some(5), "a/y", &[2, 1], b"both-q1"));
+    assert_eq!(drain(&mut b, &mut sa), vec![("a/x".to_string(), b"both".to_vec()), ("a/y".to_string(), b"both-q1".to_vec())]);
+    assert_eq!(drain(&mut b, &mut sb), vec![("a/x".to_string(), b"both".to_vec()), ("a/y".to_string(), b"both-q1".to_vec())]);
+    assert_eq!(drain(&mut b, &mut sc), vec![]);
+    // exactly one acknowledgement for the QoS 1 message
+    let acks: Vec<_> = b.written().into_iter().filter(|f| f[0] >> 4 == 4).collect();
+    assert_eq!(acks.len(), 1);
+    assert_eq!(b.run_result(), None);
+}
